@@ -1,6 +1,6 @@
 CONSTANTS P = 43  A = 0  B = 7  Gx = 2  Gy = 12  N = 31  Mode = "recover"  RMax = 33
 CONSTANT ESet <- EFew
-CONSTANT SSet <- SAll
+CONSTANT SSet <- SFew
 CONSTANT DSet <- DAll
 SPECIFICATION Spec
 INVARIANT Holds
